@@ -1121,7 +1121,17 @@ func (r *histRunner) step(i int, op *Op) error {
 	case "reopen":
 		return r.doReopen(op)
 	case "gc":
-		return r.doGC(op)
+		if err := r.doGC(op); err != nil {
+			return err
+		}
+		if op.Mask != "" {
+			// restart right after the pass, with rebuilt indexes
+			if err := r.sweep("sweep after gc, before the restart"); err != nil {
+				return err
+			}
+			return r.doReopen(&Op{Kind: "reopen", Mask: op.Mask})
+		}
+		return nil
 	case "gcpark":
 		return r.doGCPark(op)
 	case "gcreq":
@@ -1234,7 +1244,7 @@ func opString(op *Op, c *Cfg) string {
 	case "reopen":
 		return fmt.Sprintf("reopen(mask=%s/%x)", op.Mask, op.MaskSel)
 	case "gc":
-		return fmt.Sprintf("gc(bucket#%d, %d, %d, merge=%v, api=%v)", op.Bucket, op.Begin, op.End, op.Merge, op.ViaAPI)
+		return fmt.Sprintf("gc(bucket#%d, %d, %d, merge=%v, api=%v, then reopen %q)", op.Bucket, op.Begin, op.End, op.Merge, op.ViaAPI, op.Mask)
 	}
 	return op.Kind
 }
